@@ -90,7 +90,7 @@ os.makedirs(d, exist_ok=True)
 open(d + "/f.v", "w").write(src)
 p = subprocess.run(["coqc", "-Q", os.environ.get("THEORIES", "/verif/coq/theories"), "CliUtils", "f.v"], cwd=d, capture_output=True, text=True)
 out = p.stdout + p.stderr
-NAMES = ["C01", "C02", "C03", "C04", "C05", "C10", "C11", "C12", "C13"]
+NAMES = ["C01", "C02", "C03", "C04", "C05", "C10", "C11", "C12", "C13", "C04obs"]
 if "Error" in out: print(out[-2000:])
 flat = " ".join(out.split())
 for m in re.finditer(r"\((\d+), \[([a-z; ]+)\], \[([a-z; ]+)\]\)", flat):
